@@ -46,6 +46,17 @@ pub fn by_id(id: &str) -> Option<Box<dyn Prop>> {
     }
 }
 
+static FORCED_SHAPE: std::sync::OnceLock<String> = std::sync::OnceLock::new();
+
+/// `--shape <name>`: every run of the batch uses this scenario shape (set once, before any run)
+pub fn force_shape(name: &str) {
+    let _ = FORCED_SHAPE.set(name.to_string());
+}
+
+pub fn forced_shape() -> Option<&'static str> {
+    FORCED_SHAPE.get().map(|s| s.as_str())
+}
+
 thread_local! {
     /// faults fired by the link of the run being generated that leave no operation behind
     static HIDDEN: std::cell::RefCell<Vec<Fault>> = const { std::cell::RefCell::new(Vec::new()) };
